@@ -52,6 +52,17 @@ def run(res, replay=None):
                 gens.append([ctr[0] + r * math.cos(a), ctr[1] + r * math.sin(a), ctr[2] + 1e-5 * (rng.unit() - 0.5)])
             big.append({"family": "bigface", "dim": 3, "periodic": False, "anchor": [0.0, 0.0, 0.0], "width": [1.0, 1.0, 1.0],
                         "gens": gens, "mask": [True, True] + [False] * nring})
+        # one clip that removes tens of vertices at once (see C18's bigclip cases): only the upper axis cell is constructed
+        for m in ([40] if tier == "quick" else [18, 40, 100]):
+            ctr, rad, h = [0.5, 0.5, 0.5], 0.2, 0.3
+            z_low = 2 * (ctr[2] + (h * h - rad * rad) / (2 * h) + 0.02) - (ctr[2] + h)
+            gens = [[ctr[0], ctr[1], ctr[2] + h], [ctr[0], ctr[1], z_low]]
+            for i in range(m):
+                a = 2 * math.pi * (i + 0.05 * rng.unit()) / m
+                r = rad * (1.0 + 1e-5 * rng.unit())
+                gens.append([ctr[0] + r * math.cos(a), ctr[1] + r * math.sin(a), ctr[2] + 1e-5 * (rng.unit() - 0.5)])
+            big.append({"family": "bigclip", "dim": 3, "periodic": False, "anchor": [0.0, 0.0, 0.0], "width": [1.0, 1.0, 1.0],
+                        "gens": gens, "mask": [True] + [False] * (m + 1)})
         extra = geo.geo_data(tier, seed, inputs=big, name="c15big")
         data = {"recs": data["recs"] + extra["recs"]}
     model_lines, model_idx = [], []
